@@ -402,3 +402,38 @@ def c07(run):
 
 
 MODES["C07"] = "literal"
+
+
+# ------------------------------------------------------------------ C08
+@check("C08")
+def c08(run):
+    run.rule = ("spec/Expr.tla: every sentence of the documented expression grammar with <=2 binary operators over ten operands "
+                "(0, 2, 0.5, 1 X, 2 X, 0 X, 4 Y, 1 Y, -2, -1 X) plus one operand replaced by a (possibly negated) parenthesised "
+                "one-operator sub-expression (thorough: 3 operators, two levels of nesting); each in two spacing styles, evaluated by "
+                "Ledger::eval and used as posting amount, assigned balance, cost rate, total cost and lot price; non-trivial = at least one operator")
+    run.assumptions += ["number / commodity and commodity / commodity are not classified by the statement: only absence of a crash is checked for sentences containing them",
+                        "an amount with several commodities of which at most one is non-zero may be accepted or rejected where a single amount is required",
+                        "a bare-number result of `eval` may be reported or rejected (the API returns an amount)",
+                        "operands and divisors are of the form 2^a*5^b so Decimal division is exact; results are compared numerically (scale is not part of C08)",
+                        "binary minus directly after a bare number is always written with spaces (the `1-2` spelling belongs to C05)"]
+    cfg = "Expr_quick.cfg" if run.tier == "quick" else "Expr_thorough.cfg"
+    nd, n, st = tlc_gen("MCExpr.tla", cfg, "C08-gen", workers=8, timeout=3000, dedup=True)
+    run.add_model(st)
+    recs, res = feed(run, "expr", nd, key=lambda r: r["spaced"])
+    if run.tier == "thorough":
+        nd, n, st = tlc_gen("MCExpr.tla", "Expr_quick.cfg", "C08-gen-q", workers=8, timeout=3000, dedup=True)
+        run.add_model(st)
+        feed(run, "expr", nd, key=lambda r: r["spaced"])
+    # vacuity guard: the bound must contain sentences where precedence and associativity matter
+    cls = {}
+    for r in res:
+        for c in r.get("classes", []):
+            cls[c] = cls.get(c, 0) + 1
+    run.extra["classes"] = cls
+    for need in ("value_comm", "value_num", "value_err", "amount_ok", "cost_ok", "amount_either"):
+        if not cls.get(need):
+            raise ToolError("no sentence of class %s in the bound (vacuous)" % need)
+    run.exhaustive = True
+
+
+MODES["C08"] = "expr"
